@@ -232,7 +232,7 @@ class LALR_Analyzer(GrammarAnalyzer):
             includes = []
             lookback = self.lookback[nt]
             for rp in state.closure:
-                if rp.rule.origin != nonterminal:
+                if rp.rule.origin != nonterminal or rp.index != 0:
                     continue
                 # traverse the states for rp(.rule)
                 state2 = state
